@@ -23,6 +23,11 @@ CLAIMS = {
         design_ref="DESIGN.md §3 C07",
         note="Decides structural clauses R07.x (necessary conditions of panic-freedom/termination), not panic-freedom of every accessor on every byte string. ieee802154::Frame addressing/security accessors are reported as not decided. Trusted base as C17.",
         technique="static analysis: interval + byte-provenance comparison of accessor bounds against check_len guarantees over MIR origin trees; loop progress witnesses; call-graph unsafe audit"),
+    'C08': dict(
+        text="Pairing/ordering rules on the MIR CFG: every emitter of a checksummed header writes the checksum on every path, behind caps.tx(), as its last write; every header mutation after emit (fragment emitters) is followed by a re-fill; fill_checksum zeroes first, sums with the pseudo-header of its own arguments and stores the complement; every accepting path of the five parsers passes verify_checksum()==true or the rx-offloaded edge (UDP zero only for IPv4); verify_checksum returns true only as the result of a real sum.",
+        design_ref="DESIGN.md §3 C08",
+        note="The arithmetic clause (checksum::data equals the RFC 1071 sum for every length/alignment/content) quantifies over values and is NOT decided (no static argument without a solver). Trusted base as C17.",
+        technique="static analysis: ordering/pairing and guard must-pass-through over rustc MIR"),
 }
 
 NOT_YET = "structural rules for this property are not built yet in this revision; no static claim is made"
